@@ -299,7 +299,7 @@ Lemma create_ok w m ops srs sp :
   let st := w_store w in
   let id := ckpt_id st + 1 in
   snd (mon_create m id ops srs) = [] /\
-  Inv (MkWorld (MkStore (completed st) (Some (new_pending id ops srs sp)) id) (w_files w) (w_lose w) (w_sps w)) (fst (mon_create m id ops srs)).
+  Inv (MkWorld (MkStore (completed st) (Some (new_pending id ops srs sp)) id) (w_files w) (w_lose w) (w_sps w) (w_failw w)) (fst (mon_create m id ops srs)).
 Proof.
   intros (I1 & I2 & I3 & I4 & I5 & I6 & I7 & I8) Hp st id.
   unfold bnd in I3, I4. rewrite Hp in *.
@@ -319,24 +319,36 @@ Proof.
   repeat split; assumption.
 Qed.
 
-(* an accepted or ignored ack, then the completeness test *)
+(* an accepted or ignored ack, then the completeness test (publication, failed write, or still pending) *)
 Lemma finish_ok w p mp lst pubs cur sps :
   PInv p mp -> p_id p = ckpt_id (w_store w) -> lst <= ckpt_id (w_store w) ->
   (forall i, In i cur -> i < p_id p) ->
   (forall s, In s (completed (w_store w)) -> sn_id s < p_id p) ->
   uniq pubs -> (forall x, In x (w_files w) -> In x pubs) -> (forall b, top pubs b -> In b (w_files w)) ->
   w_sps w = sps ->
-  exists pub, snd (finish_if_complete w p) = RAck false pub /\
-    snd (mon_pub (MkMon (Some mp) lst pubs cur sps) pub) = [] /\
-    Inv (fst (finish_if_complete w p)) (fst (mon_pub (MkMon (Some mp) lst pubs cur sps) pub)).
+  res_err (snd (finish_if_complete w p)) = false /\
+  snd (mon_ack (MkMon (Some mp) lst pubs cur sps) (snd (finish_if_complete w p))) = [] /\
+  Inv (fst (finish_if_complete w p)) (fst (mon_ack (MkMon (Some mp) lst pubs cur sps) (snd (finish_if_complete w p)))).
 Proof.
   intros HP Hid Hl Hcur Hcomp Hu Hsub Htop Hsps.
   unfold finish_if_complete. destruct (is_complete p) eqn:Ec.
-  - destruct (publish w p) as [w' pub] eqn:Epub. cbn [fst snd].
-    exists (Some pub). split; [reflexivity|].
-    pose proof (publish_ok w p mp lst pubs cur sps HP Hid Ec Hl Hcur Hcomp Hu Hsub Htop Hsps) as H.
-    rewrite Epub in H. cbn [fst snd] in H. exact H.
-  - exists None. cbn [fst snd mon_pub]. split; [reflexivity|]. split; [reflexivity|].
+  - destruct (w_failw w) eqn:Ef.
+    + (* the write of the snapshot file fails: nothing happens but the loss of the pending snapshot *)
+      cbn [fst snd res_err mon_ack m_pend m_last m_pub m_cur m_sps]. split; [reflexivity|].
+      assert (Hc : match cur_of w with Some c => c =? mp_id mp | None => false end = false).
+      { unfold cur_of. destruct (completed (w_store w)) as [|c l]; [reflexivity|].
+        assert (Hlt := Hcomp c (or_introl eq_refl)).
+        destruct HP as (P1 & _). apply N.eqb_neq. lia. }
+      rewrite Hc. split; [reflexivity|].
+      unfold Inv, fail_publish, bnd. cbn [w_store w_files w_sps pend completed ckpt_id m_pend m_last m_pub m_cur m_sps].
+      split; [exact I|]. split; [exact Hl|].
+      split. { intros i Hi. specialize (Hcur i Hi). lia. }
+      split. { intros x Hx. specialize (Hcomp x Hx). lia. }
+      repeat split; assumption.
+    + destruct (publish w p) as [w' pub] eqn:Epub. cbn [fst snd res_err mon_ack]. split; [reflexivity|].
+      pose proof (publish_ok w p mp lst pubs cur sps HP Hid Ec Hl Hcur Hcomp Hu Hsub Htop Hsps) as H.
+      rewrite Epub in H. cbn [fst snd] in H. exact H.
+  - cbn [fst snd res_err mon_ack mon_pub]. split; [reflexivity|]. split; [reflexivity|].
     unfold Inv, with_pending, bnd. cbn [w_store w_files w_sps pend completed ckpt_id m_pend m_last m_pub m_cur m_sps].
     split; [split; [exact HP|exact Hid]|]. repeat split; assumption.
 Qed.
@@ -347,7 +359,7 @@ Proof. destruct m as [a b c d e]. cbn. intros ->. reflexivity. Qed.
 Theorem step_preserves w m a : Inv w m -> step_good w m a.
 Proof.
   intros HI. unfold step_good.
-  destruct a as [ops srs|ops srs|cid op pl|cid sr sts| |b|rid|].
+  destruct a as [ops srs|ops srs|cid op pl|cid sr sts| |b|rid| |].
   - (* CreateCheckpoint *)
     unfold step. destruct (pend (w_store w)) as [p|] eqn:Ep.
     + cbn [fst snd mon_step]. split; [reflexivity|exact HI].
@@ -376,17 +388,17 @@ Proof.
       assert (B4 : forall s, In s (completed (w_store w)) -> sn_id s < p_id p) by (intros s Hs; exact (bnd_pending _ _ _ Ep (I4 s Hs))).
       destruct (N.eqb_spec (p_id p) cid) as [Ecid|Ecid]; cbn [negb].
       * set (mp' := MkMPend (mp_id mp) (mp_ops mp) (mp_srs mp) (mp_got_ops mp ++ [(op, cid, pl)]) (mp_got_srs mp)).
-        assert (Estep : forall e0 pub, mon_step m (AAckOp cid op pl, RAck e0 pub) =
-                  mon_pub (if mem op (mp_ops mp) && negb (mem op (map entry_op (mp_got_ops mp)))
-                           then MkMon (Some mp') (m_last m) (m_pub m) (m_cur m) (m_sps m) else m) pub).
-        { intros e0 pub. cbn [mon_step]. rewrite Emp.
+        assert (Estep : forall r, mon_step m (AAckOp cid op pl, r) =
+                  mon_ack (if mem op (mp_ops mp) && negb (mem op (map entry_op (mp_got_ops mp)))
+                           then MkMon (Some mp') (m_last m) (m_pub m) (m_cur m) (m_sps m) else m) r).
+        { intros r. cbn [mon_step]. rewrite Emp.
           replace (mp_id mp =? cid) with true by (symmetry; apply N.eqb_eq; congruence).
           cbn [andb]. reflexivity. }
         unfold add_op. cbn [fst]. rewrite (P4 op).
         destruct (mem op (mp_ops mp)) eqn:Emem; [destruct (mem op (map entry_op (mp_got_ops mp))) eqn:Egot|].
         -- (* duplicate: ignored *)
-           destruct (finish_ok w p mp (m_last m) (m_pub m) (m_cur m) (m_sps m) HP Hid I2 B3 B4 I5 I6 I7 I8) as (pub & Er & Hc & Hi).
-           rewrite Er, Estep. cbn [negb andb]. rewrite (mon_eta m mp Emp) at 1 2. split; assumption.
+           destruct (finish_ok w p mp (m_last m) (m_pub m) (m_cur m) (m_sps m) HP Hid I2 B3 B4 I5 I6 I7 I8) as (Er & Hc & Hi).
+           rewrite Estep. cbn [negb andb]. rewrite (mon_eta m mp Emp) at 1 2. split; assumption.
         -- (* counted *)
            set (e := (op, cid, pl)).
            set (p' := MkPending (p_id p) (set_flag op (p_ops p)) (p_srs p) (p_entries p ++ [e]) (p_splits p) (p_sp p)).
@@ -415,20 +427,20 @@ Proof.
                - exact (proj1 (incl_b_N _ _) P8 x Hx).
                - cbn in Hx. destruct Hx as [Hx|[]]. subst x. apply mem_In. exact Emem. } }
            assert (Hid' : p_id p' = ckpt_id (w_store w)) by exact Hid.
-           destruct (finish_ok w p' mp' (m_last m) (m_pub m) (m_cur m) (m_sps m) HP2 Hid' I2 B3 B4 I5 I6 I7 I8) as (pub & Er & Hc & Hi).
-           match goal with |- context [finish_if_complete w ?x] => change x with p' end. rewrite Er, Estep. cbn [negb andb]. split; assumption.
+           destruct (finish_ok w p' mp' (m_last m) (m_pub m) (m_cur m) (m_sps m) HP2 Hid' I2 B3 B4 I5 I6 I7 I8) as (Er & Hc & Hi).
+           match goal with |- context [finish_if_complete w ?x] => change x with p' end. rewrite Estep, ?Er. cbn [negb andb]. split; assumption.
         -- (* unknown operator: ignored *)
-           destruct (finish_ok w p mp (m_last m) (m_pub m) (m_cur m) (m_sps m) HP Hid I2 B3 B4 I5 I6 I7 I8) as (pub & Er & Hc & Hi).
-           rewrite Er, Estep. cbn [negb andb]. rewrite (mon_eta m mp Emp) at 1 2. split; assumption.
+           destruct (finish_ok w p mp (m_last m) (m_pub m) (m_cur m) (m_sps m) HP Hid I2 B3 B4 I5 I6 I7 I8) as (Er & Hc & Hi).
+           rewrite Estep. cbn [negb andb]. rewrite (mon_eta m mp Emp) at 1 2. split; assumption.
       * (* wrong id *)
         cbn [fst snd mon_step]. rewrite Emp.
         replace (mp_id mp =? cid) with false by (symmetry; apply N.eqb_neq; congruence).
-        cbn [andb mon_pub fst snd]. split; [reflexivity|exact HI0].
+        cbn [andb mon_ack mon_pub fst snd]. split; [reflexivity|exact HI0].
     + (* no pending checkpoint *)
       cbn [fst snd mon_step].
       assert (HI0 := HI). destruct HI as (I1 & _). rewrite Ep in I1.
       destruct (m_pend m) as [mp|] eqn:Emp; [contradiction|].
-      cbn [mon_pub fst snd]. split; [reflexivity|exact HI0].
+      cbn [mon_ack mon_pub fst snd]. split; [reflexivity|exact HI0].
   - (* AddSourceSnapshot *)
     unfold step. destruct (pend (w_store w)) as [p|] eqn:Ep.
     + assert (HI0 := HI). destruct HI as (I1 & I2 & I3 & I4 & I5 & I6 & I7 & I8). rewrite Ep in I1.
@@ -439,16 +451,16 @@ Proof.
       assert (B4 : forall s, In s (completed (w_store w)) -> sn_id s < p_id p) by (intros s Hs; exact (bnd_pending _ _ _ Ep (I4 s Hs))).
       destruct (N.eqb_spec (p_id p) cid) as [Ecid|Ecid]; cbn [negb].
       * set (mp' := MkMPend (mp_id mp) (mp_ops mp) (mp_srs mp) (mp_got_ops mp) (mp_got_srs mp ++ [(sr, sts)])).
-        assert (Estep : forall e0 pub, mon_step m (AAckSr cid sr sts, RAck e0 pub) =
-                  mon_pub (if negb e0 && mem sr (mp_srs mp) && negb (mem sr (map fst (mp_got_srs mp)))
-                           then MkMon (Some mp') (m_last m) (m_pub m) (m_cur m) (m_sps m) else m) pub).
-        { intros e0 pub. cbn [mon_step]. rewrite Emp.
+        assert (Estep : forall r, mon_step m (AAckSr cid sr sts, r) =
+                  mon_ack (if negb (res_err r) && mem sr (mp_srs mp) && negb (mem sr (map fst (mp_got_srs mp)))
+                           then MkMon (Some mp') (m_last m) (m_pub m) (m_cur m) (m_sps m) else m) r).
+        { intros r. cbn [mon_step]. rewrite Emp.
           replace (mp_id mp =? cid) with true by (symmetry; apply N.eqb_eq; congruence).
           rewrite andb_true_r. reflexivity. }
         unfold add_sr. rewrite (P5 sr). cbn [dup_sr_ack_appends repaired].
         destruct (mem sr (mp_srs mp)) eqn:Emem; [destruct (mem sr (map fst (mp_got_srs mp))) eqn:Egot|].
         -- (* duplicate: refused *)
-           cbn [fst snd]. rewrite Estep. cbn [negb andb mon_pub fst snd]. split; [reflexivity|exact HI0].
+           cbn [fst snd]. rewrite Estep. cbn [res_err negb andb mon_ack mon_pub fst snd]. split; [reflexivity|exact HI0].
         -- set (p' := MkPending (p_id p) (p_ops p) (set_flag sr (p_srs p)) (p_entries p) (p_splits p ++ sts) (p_sp p)).
            assert (HP2 : PInv p' mp').
            { unfold PInv, p', mp'. cbn [p_id p_ops p_srs p_entries p_splits mp_id mp_ops mp_srs mp_got_ops mp_got_srs].
@@ -463,17 +475,17 @@ Proof.
                - destruct (mem k (mp_srs mp)); [|reflexivity]. rewrite orb_false_r. reflexivity. }
              repeat split; assumption. }
            assert (Hid' : p_id p' = ckpt_id (w_store w)) by exact Hid.
-           destruct (finish_ok w p' mp' (m_last m) (m_pub m) (m_cur m) (m_sps m) HP2 Hid' I2 B3 B4 I5 I6 I7 I8) as (pub & Er & Hc & Hi).
-           match goal with |- context [finish_if_complete w ?x] => change x with p' end. rewrite Er, Estep. cbn [negb andb]. split; assumption.
+           destruct (finish_ok w p' mp' (m_last m) (m_pub m) (m_cur m) (m_sps m) HP2 Hid' I2 B3 B4 I5 I6 I7 I8) as (Er & Hc & Hi).
+           match goal with |- context [finish_if_complete w ?x] => change x with p' end. rewrite Estep, ?Er. cbn [negb andb]. split; assumption.
         -- (* unknown source runner: refused *)
-           cbn [fst snd]. rewrite Estep. cbn [negb andb mon_pub fst snd]. split; [reflexivity|exact HI0].
+           cbn [fst snd]. rewrite Estep. cbn [res_err negb andb mon_ack mon_pub fst snd]. split; [reflexivity|exact HI0].
       * cbn [fst snd mon_step]. rewrite Emp.
         replace (mp_id mp =? cid) with false by (symmetry; apply N.eqb_neq; congruence).
-        cbn [negb andb mon_pub fst snd]. split; [reflexivity|exact HI0].
+        cbn [res_err negb andb mon_ack mon_pub fst snd]. split; [reflexivity|exact HI0].
     + cbn [fst snd mon_step].
       assert (HI0 := HI). destruct HI as (I1 & _). rewrite Ep in I1.
       destruct (m_pend m) as [mp|] eqn:Emp; [contradiction|].
-      cbn [mon_pub fst snd]. split; [reflexivity|exact HI0].
+      cbn [mon_ack mon_pub fst snd]. split; [reflexivity|exact HI0].
   - (* Restart *)
     unfold step. cbn [fst snd mon_step].
     destruct HI as (I1 & I2 & I3 & I4 & I5 & I6 & I7 & I8).
@@ -527,6 +539,8 @@ Proof.
       split. { intros x Hx. specialize (I4 x Hx). lia. }
       repeat split; assumption.
     + repeat split; assumption.
+  - (* fault injection: the next snapshot write fails *)
+    unfold step. cbn [fst snd mon_step]. split; [reflexivity|exact HI].
 Qed.
 
 Theorem run_accepted : forall acts w m, Inv w m -> mon_run m (combine acts (run repaired w acts)) = [].
